@@ -97,7 +97,8 @@ class Antenna(object):
         """
         Add time before next set of samples.
         """
-        self.set_time(self.t_start + t)
+        # A single-precision step would round the whole clock to single precision
+        self.set_time(self.t_start + float(t))
         
     def reset_start(self):
         """
@@ -244,7 +245,8 @@ class MultiAntennaArray(object):
         """
         Add time before next set of samples.
         """
-        self.set_time(self.t_start + t)
+        # A single-precision step would round the whole clock to single precision
+        self.set_time(self.t_start + float(t))
         
     def reset_start(self):
         """
